@@ -63,6 +63,7 @@ def parseCfg (s : String) : Cfg :=
       else if k == "rpf" then { c with rpf := some (toNat v) }
       else if k == "eqf" then { c with eqf := some (toNat v) }
       else if k == "umf" then { c with umf := some (toNat v) }
+      else if k == "lss" then { c with lss := some (toNat v) }
       else if k == "maf" then { c with maf := some (toNat v) }
       else if k == "evl" then { c with evl := some (toNat v) }
       else c
@@ -247,6 +248,7 @@ def showCfg (c : Cfg) (isCond : Bool := false) : String :=
     (match c.rpf with | some p => [s!"rpf={p}"] | none => []) ++
     (match c.eqf with | some p => [s!"eqf={p}"] | none => []) ++
     (match c.umf with | some p => [s!"umf={p}"] | none => []) ++
+    (match c.lss with | some p => [s!"lss={p}"] | none => []) ++
     (match c.maf with | some p => [s!"maf={p}"] | none => []) ++
     (match c.evl with | some p => [s!"evl={p}"] | none => [])
   if parts.isEmpty then "-" else ",".intercalate parts
